@@ -5,6 +5,12 @@ import ElvProofs.C41.RepeatQuote
 import ElvProofs.C41.Re
 import ElvProofs.C41.ReSplit
 import ElvProofs.C41.Replace
+import ElvProofs.C41.TemplateGrammar
+import ElvProofs.C41.RefNum
+import ElvProofs.C41.TemplateNormal
+import ElvProofs.C41.Awk
+import ElvProofs.C41.History
+import ElvModel.C41.Driver
 open Go C41
 
 /-!
@@ -175,11 +181,14 @@ example : fromUtf8Bytes [97, 256] = .exc "OOR|byte|0|255|256" := by decide
 
 /-! ## repeat -/
 
-/-- `str:repeat` (with fixes/C41-repeat-overflow.patch) never panics: for every
-string and every count, also counts whose product with the length wraps around
-64 bits. -/
-theorem C41_repeat_no_panic (s : Bytes) (n : Int) : (strRepeat s n).isPanic = false := by
-  unfold strRepeat
+/-- `str:repeat` (with fixes/C41-repeat-overflow.patch and fixes/C41-repeat-size-cap.patch)
+never panics: for every string and every count — also counts whose product with the
+length wraps around 64 bits, and counts whose result no machine can allocate — on
+every platform whose allocation limit is at least the documented cap (2^31−1 bytes;
+the limit is ≥ 2^32 on every Go platform). -/
+theorem C41_repeat_no_panic (maxAlloc : Int) (hA : maxRepeatLen ≤ maxAlloc) (s : Bytes) (n : Int) :
+    (strRepeatA maxAlloc s n).isPanic = false := by
+  unfold strRepeatA
   split
   · rfl
   · rename_i h0
@@ -187,14 +196,19 @@ theorem C41_repeat_no_panic (s : Bytes) (n : Int) : (strRepeat s n).isPanic = fa
     · rfl
     · rename_i hg
       have h0 : 0 ≤ n := by omega
-      have : ¬ (s.length : Int) * n > maxInt := fun h => hg ((guard_iff s n h0).mpr h)
-      rw [stringsRepeat_ok s n h0 (by omega)]
-      rfl
+      have hp : ¬ (s.length : Int) * n > maxInt := fun h => hg ((guard_iff s n h0).mpr h)
+      have hnn : 0 ≤ (s.length : Int) * n := Int.mul_nonneg (by omega) h0
+      rw [wrap64_id _ hnn (by omega)]
+      split
+      · rfl
+      · rw [stringsRepeatA_ok maxAlloc s n h0 (by omega) (by omega)]
+        rfl
 
-/-- It fails exactly when the count is negative or the result length overflows `int`. -/
-theorem C41_repeat_error_iff (s : Bytes) (n : Int) :
-    (∃ e, strRepeat s n = .exc e) ↔ (n < 0 ∨ (s.length : Int) * n > maxInt) := by
-  unfold strRepeat
+/-- It fails exactly when the count is negative or the result would be longer than
+the documented maximum of 2147483647 bytes (true product, no wrap). -/
+theorem C41_repeat_error_iff (maxAlloc : Int) (hA : maxRepeatLen ≤ maxAlloc) (s : Bytes) (n : Int) :
+    (∃ e, strRepeatA maxAlloc s n = .exc e) ↔ (n < 0 ∨ (s.length : Int) * n > maxRepeatLen) := by
+  unfold strRepeatA
   by_cases h0 : n < 0
   · simp [h0]
   · have h0' : 0 ≤ n := by omega
@@ -202,27 +216,53 @@ theorem C41_repeat_error_iff (s : Bytes) (n : Int) :
     by_cases hg : s.length > 0 ∧ n > maxInt / (s.length : Int)
     · rw [if_pos hg]
       have := (guard_iff s n h0').mp hg
+      have : (s.length : Int) * n > maxRepeatLen := by unfold maxRepeatLen; unfold maxInt at this; omega
       simp [this]
     · rw [if_neg hg]
       have hng : ¬ (s.length : Int) * n > maxInt := fun h => hg ((guard_iff s n h0').mpr h)
-      rw [stringsRepeat_ok s n h0' (by omega)]
-      simp [h0, hng]
+      have hnn : 0 ≤ (s.length : Int) * n := Int.mul_nonneg (by omega) h0'
+      rw [wrap64_id _ hnn (by omega)]
+      by_cases hc : (s.length : Int) * n > maxRepeatLen
+      · rw [if_pos hc]; simp [hc]
+      · rw [if_neg hc, stringsRepeatA_ok maxAlloc s n h0' (by omega) (by omega)]
+        simp [h0, hc]
 
 /-- Otherwise the result is `n` copies of `s`, of length `|s|·n`. -/
-theorem C41_repeat_result (s : Bytes) (n : Int) (h0 : 0 ≤ n) (h : (s.length : Int) * n ≤ maxInt) :
-    strRepeat s n = .ok (List.replicate n.toNat s).flatten ∧
+theorem C41_repeat_result (maxAlloc : Int) (hA : maxRepeatLen ≤ maxAlloc) (s : Bytes) (n : Int) (h0 : 0 ≤ n)
+    (h : (s.length : Int) * n ≤ maxRepeatLen) :
+    strRepeatA maxAlloc s n = .ok (List.replicate n.toNat s).flatten ∧
     ((List.replicate n.toNat s).flatten.length : Int) = s.length * n := by
+  have hm : (s.length : Int) * n ≤ maxInt := by unfold maxInt; unfold maxRepeatLen at h; omega
   constructor
-  · unfold strRepeat
-    rw [if_neg (by omega), if_neg (fun hg => by have := (guard_iff s n h0).mp hg; omega)]
-    exact stringsRepeat_ok s n h0 h
+  · unfold strRepeatA
+    have hnn : 0 ≤ (s.length : Int) * n := Int.mul_nonneg (by omega) h0
+    rw [if_neg (by omega), if_neg (fun hg => by have := (guard_iff s n h0).mp hg; omega),
+      wrap64_id _ hnn hm, if_neg (by omega)]
+    exact stringsRepeatA_ok maxAlloc s n h0 hm (by omega)
   · rw [length_flatten_replicate]
     obtain ⟨k, rfl⟩ := Int.eq_ofNat_of_zero_le h0
     simp [Int.mul_comm]
 
+example : maxRepeatLen ≤ maxAlloc64 := by decide
 example : strRepeat [97, 98] 3 = .ok [97, 98, 97, 98, 97, 98] := by decide
 example : strRepeat [97, 98, 99] 6148914691236517206 =
     .exc "BV|n|small enough not to overflow result|6148914691236517206" := by decide
+example : strRepeat [126] 9223372036854775807 =
+    .exc "BV|n|small enough for the result not to exceed 2147483647 bytes|9223372036854775807" := by decide
+example : strRepeat [97, 98] 1073741824 =
+    .exc "BV|n|small enough for the result not to exceed 2147483647 bytes|1073741824" := by decide
+
+/-- With the overflow guard alone (round 1's fix) a result that fits in an `int` but
+not in the address space still reaches `strings.Repeat`, whose allocation panics
+(`makeslice: len out of range`) and kills the interpreter: `str:repeat '~'
+9223372036854775807` (finding `alloc-str:repeat` of C17).  Replayed on the real code by
+harness/corpus/C41.txt. -/
+theorem C41_repeat_uncapped_counterexample :
+    ¬ ∀ (s : Bytes) (n : Int), (repeatUncapped maxAlloc64 s n).isPanic = false := by
+  intro h
+  have := h [126] 9223372036854775807
+  revert this
+  decide
 
 /-- The guard of the UNCHANGED tree, `len(s)*n < 0` on the wrapped product, misses
 a product that wraps to a positive number: `strings.Repeat` itself panics and the
@@ -335,13 +375,185 @@ theorem C41_re_replace_template_partial (isName : Rune → Bool) (names : List B
   · intro m _
     simp [expand, expandLoop, ht, bind, Res.bind, pure]
 
-/-- NOT PROVED (time-boxed): for every template, expansion (`$1`, `${name}`, `$$`,
-malformed references) neither panics nor runs out of fuel under the engine
-contract.  Only the `$`-free case above is proved; the general case is covered
-by the correspondence run (templates from `templPieces` in the harness). -/
+/-! ## replacement templates (`$1`, `${name}`, `$$`): Go's `Regexp.Expand` -/
+
+/-- For EVERY template and every match satisfying the contract, Go's `expand` loop
+finishes within its fuel, does not panic (an out-of-range or unmatched group just
+contributes nothing) and yields the concatenation of the values of the template's
+tokens. -/
+theorem C41_template_expand (isName : Rune → Bool) (names : List Bytes) (t src : Bytes) (m : Match)
+    (h : MatchOk src.length m) :
+    expand isName names t src m = .ok (expandSpec isName names t src m) := expand_eq isName names t src m h
+
+/-- `re:replace` with a template: the unmatched pieces of the source and, for each
+match in order, the expansion of the template for that match. -/
+theorem C41_re_replace_template (isName : Rune → Bool) (names : List Bytes) (t src : Bytes)
+    (full : List Match) (h : EngineOk src.length full) :
+    reReplace true false isName names (.str t) src full =
+      .ok (spliceSpec src (expandSpec isName names t src) 0 full) := by
+  unfold reReplace
+  simp only [Bool.not_true, Bool.false_eq_true, if_false]
+  rw [replaceAllLoop_ok src _ (expandSpec isName names t src) () full 0 [] h.shape ?_ h.asc
+    (Int.le_refl _) (by omega)]
+  · simp [bind, Res.bind, pure]
+  · intro m hm
+    simp [expand_eq isName names t src m (h.shape m hm), bind, Res.bind, pure]
+
+/-- The round-1 statement: for every template, expansion neither panics nor runs
+out of fuel under the engine contract. -/
 def C41_re_replace_template_full : Prop :=
   ∀ (isName : Rune → Bool) (names : List Bytes) (t src : Bytes) (full : List Match),
     EngineOk src.length full → ∃ b, reReplace true false isName names (.str t) src full = .ok b
+
+theorem C41_re_replace_template_total : C41_re_replace_template_full :=
+  fun isName names t src full h => ⟨_, C41_re_replace_template isName names t src full h⟩
+
+/-- Every template is the rendering (grammar `Tok.render`) of its tokens: the reading
+loses nothing. -/
+theorem C41_template_tokens_render (isName : Rune → Bool) (t : Bytes) :
+    renderToks (tokenize isName t) = t :=
+  renderToks_tokenizeLoop isName _ t (by omega)
+
+/-- A NORMAL token list (texts `$`-free, non-empty and maximal; `$name` extends over
+every following name rune — longest name; `${name}` is a name up to its `}`; a raw `$`
+starts neither `$$` nor a reference) is exactly what its rendering is read as. -/
+theorem C41_template_tokens_unique (isName : Rune → Bool) (toks : List Tok) (h : NormalToks isName toks) :
+    tokenize isName (renderToks toks) = toks :=
+  tokenizeLoop_renderToks isName toks _ h (by omega)
+
+/-- … and the reading of every template is normal: `tokenize` and `renderToks` are
+inverse bijections between all templates and the normal token lists. -/
+theorem C41_template_tokens_normal (isName : Rune → Bool) (t : Bytes) : NormalToks isName (tokenize isName t) :=
+  normal_tokenizeLoop isName _ t (by omega)
+
+/-- Templates generated from the grammar: `re:replace` with the rendering of a normal
+token list replaces each match by the concatenation of the token values — `$n`/`${n}`
+the text of group `n` (nothing if it does not exist or did not take part), `$name` the
+first participating group of that name, `$$` and a raw `$` a dollar sign. -/
+theorem C41_re_replace_template_grammar (isName : Rune → Bool) (names : List Bytes) (toks : List Tok)
+    (src : Bytes) (full : List Match) (hn : NormalToks isName toks) (h : EngineOk src.length full) :
+    reReplace true false isName names (.str (renderToks toks)) src full =
+      .ok (spliceSpec src (fun m => (toks.map (tokValue names src m)).flatten) 0 full) := by
+  rw [C41_re_replace_template isName names _ src full h]
+  unfold expandSpec
+  rw [C41_template_tokens_unique isName toks hn]
+
+/-- Which names are group NUMBERS (the "Parse number" rule of Go's `extract`): exactly the
+strings of ASCII digits without a leading zero (`0` itself is fine) of at most nine
+digits, denoting their decimal value; every other name — `01`, `1x`, ten digits — is
+looked up among the NAMED groups. -/
+theorem C41_template_ref_number (name : Bytes) :
+    refNum name =
+      if isDigits name = true ∧ name.length ≤ 9 ∧ ¬ (name.head? = some 48 ∧ name.length > 1)
+      then ((decVal name 0 : Nat) : Int) else -1 := refNum_spec name
+
+/-- name runes for the examples: ASCII letters, digits, `_` -/
+private def asciiName (r : Rune) : Bool :=
+  (48 ≤ r && r ≤ 57) || (65 ≤ r && r ≤ 90) || (97 ≤ r && r ≤ 122) || r = 95
+
+-- `$1x` is the group NAMED `1x` (longest name), `${1}x` is group 1 followed by `x`
+example : tokenize asciiName [36, 49, 120] = [.ref false [49, 120]] := by decide
+example : tokenize asciiName [36, 123, 49, 125, 120] = [.ref true [49], .lit [120]] := by decide
+-- `a$$-$n_$` : text, dollar, text, reference `n_`, raw dollar;  `${1` and `${}` are raw
+example : tokenize asciiName [97, 36, 36, 45, 36, 110, 95, 36] =
+    [.lit [97], .dollar, .lit [45], .ref false [110, 95], .raw] := by decide
+example : tokenize asciiName [36, 123, 49] = [.raw, .lit [123, 49]] := by decide
+example : NormalToks asciiName [.lit [97], .dollar, .ref true [49], .lit [120], .ref false [110], .raw, .lit [45]] := by
+  simp only [NormalToks, NameBefore, renderToks, Tok.render]
+  decide
+-- numbers: `$0`, `$10` are numbers; `$01` and 10-digit numerals are names
+example : refNum [48] = 0 ∧ refNum [49, 48] = 10 ∧ refNum [48, 49] = -1 ∧ refNum [49, 120] = -1 ∧
+    refNum [49, 48, 48, 48, 48, 48, 48, 48, 48, 48] = -1 ∧ refNum [57, 57, 57, 57, 57, 57, 57, 57, 57] = 999999999 := by
+  decide
+-- one match "ab" at 1 of "xaby" with group 1 = "a", group 2 unmatched, group 3 = "b" named n
+example : reReplace true false asciiName [[], [], [], [110]]
+    (.str [60, 36, 49, 36, 50, 36, 123, 110, 125, 36, 57, 36, 36, 62]) [120, 97, 98, 121] [[1, 3, 1, 2, -1, -1, 2, 3]] =
+    .ok [120, 60, 97, 98, 36, 62, 121] := by decide
+example : EngineOk 4 [[1, 3, 1, 2, -1, -1, 2, 3]] :=
+  ⟨by intro m hm; simp at hm; subst hm; simp [MatchOk, GroupsOk], by simp [Asc], by simp [EndsIncrease]⟩
+/-- outside the contract the expansion does panic (the hypothesis matters) -/
+example : (reReplace true false asciiName [[]] (.str [36, 49]) [97] [[0, 1, 0, 5]]).isPanic = true := by decide
+
+/-! ## re:awk -/
+
+/-- `re:awk` under the engine contract (for each string input, the separator's match
+list on the TRIMMED line): no panic; the callback is called for the inputs in order
+with `line` and the fields — Go's documented `Split` of `strings.Trim(line, " \t")`
+— until the first non-string input (error `input of re:awk must be string`), the
+first call ending in `break` (no error) or in an exception (that exception);
+`continue` goes on.  The `broken` latch of the code is exactly this early stop. -/
+theorem C41_awk (exprEmpty : Bool) (call : List Bytes → Flow) (inputs : List AwkIn)
+    (h : AwkInputsOk inputs) :
+    reAwk true exprEmpty call inputs = .ok (awkSpec exprEmpty call inputs) := by
+  unfold reAwk
+  obtain ⟨st', h1, h2, h3⟩ := awkLoop_spec exprEmpty call inputs
+    { broken := false, err := none, calls := [] } h rfl rfl
+  simp only [Bool.not_true, Bool.false_eq_true, if_false, bind, Res.bind, h1, pure]
+  simp at h2
+  rw [h2, h3]
+
+/-- a separator the engine rejects is an exception, and the callback is never called -/
+theorem C41_awk_bad_pattern (exprEmpty : Bool) (call : List Bytes → Flow) (inputs : List AwkIn) :
+    reAwk false exprEmpty call inputs = .exc "bad-pattern" := rfl
+
+-- " a  b" / "x y" / "c" with separator ` +`: the callback `mix` continues on field a, breaks on x
+example : reAwk true false (awkCallById "mix")
+    [.line [32, 97, 32, 32, 98] [[1, 3]], .line [120, 32, 121] [[1, 2]], .line [99] []] =
+    .ok ([[[32, 97, 32, 32, 98], [97], [98]], [[120, 32, 121], [120], [121]]], none) := by decide
+example : AwkInputsOk [.line [32, 97, 32, 32, 98] [[1, 3]], .line [99] []] := by
+  refine ⟨⟨?_, by simp [Asc], by simp [EndsIncrease]⟩, ⟨?_, by simp [Asc], by simp [EndsIncrease]⟩, trivial⟩
+  · intro m hm
+    simp at hm
+    subst hm
+    have : (trim [32, 97, 32, 32, 98] awkCutset).length = 4 := by decide
+    rw [this]
+    simp [MatchOk, GroupsOk]
+  · intro m hm
+    simp at hm
+example : reAwk true false (awkCallById "put") [.line [97] [], .other "number", .line [98] []] =
+    .ok ([[[97], [97]]], some errAwkInput) := by decide
+
+/-! ## history independence: a `re:` builtin is a function of (pattern, flags, subject) -/
+
+/-- `makePattern` compiles a NEW `*Regexp` on every call and calls the mutating
+`Longest()` on that object only; so whatever objects earlier calls have left behind
+(`h`), a builtin's result is the function `withPattern` of the pattern, the flags and
+the subject. -/
+theorem C41_history_independent {β : Type} (E : Engine) (h : Heap) (p : Bytes) (posix longest : Bool)
+    (src : Bytes) (bad nilDeref : β) (k : List Match → β) :
+    (withPatternH E h p posix longest src bad nilDeref k).2 = withPattern E p posix longest src bad k :=
+  withPatternH_eq E h p posix longest src bad nilDeref k
+
+/-- The driver (which threads the heap of regexp objects through the ops of a run, as
+the process does) prints for every op line what the history-free `stepPure` prints:
+the model side of the stateful streams depends on the op line only. -/
+theorem C41_driver_history_independent (h : Heap) (l : List String) : (stepH h l).2 = stepPure l := by
+  unfold stepH stepPure
+  split
+  · exact withPatternH_eq _ h _ _ _ _ _ _ _
+  · split <;> rfl
+
+/-- An engine where leftmost-longest differs from leftmost-first. -/
+private def demoEngine : Engine where
+  patOk := fun _ _ => true
+  run := fun _ _ longest _ => if longest then [[0, 2]] else [[0, 1]]
+
+/-- Counter-model (the seeded change `C41-regexp-cache-shares-longest`): with a pattern
+cache that hands out a shared object, `Longest()` leaks — after one `&longest` use the
+same pattern without `&longest` no longer returns what it returns on a fresh heap. -/
+theorem C41_shared_cache_history_dependent :
+    let k := fun full => reFind true (-1) [97, 98] full
+    let first := withPatternCachedH demoEngine [] [97] false true [97, 98] (.exc "bad-pattern") (.panic "nil") k
+    (withPatternCachedH demoEngine first.1 [97] false false [97, 98] (.exc "bad-pattern") (.panic "nil") k).2 ≠
+      (withPatternCachedH demoEngine [] [97] false false [97, 98] (.exc "bad-pattern") (.panic "nil") k).2 := by
+  decide
+
+-- the code's `makePattern` on the same history: no leak
+example :
+    let k := fun full => reFind true (-1) [97, 98] full
+    let first := withPatternH demoEngine [] [97] false true [97, 98] (.exc "bad-pattern") (.panic "nil") k
+    (withPatternH demoEngine first.1 [97] false false [97, 98] (.exc "bad-pattern") (.panic "nil") k).2 =
+      .ok [⟨[97], 0, 1, [⟨[97], 0, 1⟩]⟩] := by decide
 
 /-! ## re:quote -/
 
